@@ -23,6 +23,7 @@ bootstrap()
 
 from sim.rng import Streams, derive
 from sim.runner import digest, ddmin, VERIF
+from sim.proc import run_child
 
 from spyne import Application, Service, rpc
 from spyne.model.complex import (ComplexModel, ComplexModelBase, Array,
@@ -965,8 +966,6 @@ def run_env(case):
     for hs in case['hist_seeds']:
         m, ops, final = run_history(hs)
         mine[str(hs)] = [final, sorted(v['sig'] for v in m.V)]
-    env = dict(os.environ)
-    env['PYTHONHASHSEED'] = str(case['hashseed'])
     code = ('import sys, json; sys.path.insert(0, %r)\n'
             'pad = [type("Pad%%d" %% i, (object,), {}) for i in range(%d)]\n'
             'from props import c15\n'
@@ -976,8 +975,7 @@ def run_env(case):
             '    out[str(hs)] = [final, sorted(v["sig"] for v in m.V)]\n'
             'json.dump(out, sys.stdout)\n' % (VERIF, case['pad'],
                                               case['hist_seeds']))
-    p = subprocess.run([sys.executable, '-c', code], stdout=subprocess.PIPE,
-                       stderr=subprocess.PIPE, env=env, timeout=900)
+    p = run_child(code, case['hashseed'])
     V = []
     try:
         theirs = json.loads(p.stdout.decode())
